@@ -1,0 +1,19 @@
+//go:build verif
+
+package lime
+
+import "net"
+
+// NewTCPTransportFromConn builds the TCP transport over a caller-supplied connection.
+// It exists only under the "verif" build tag, for driving the real Send/Receive code over
+// in-memory, fault-injecting connections.
+func NewTCPTransportFromConn(conn net.Conn, server bool, config *TCPConfig) Transport {
+	if config == nil {
+		config = &defaultTCPConfig
+	}
+	t := tcpTransport{TCPConfig: *config}
+	t.server = server
+	t.encryption = SessionEncryptionNone
+	t.setConn(conn)
+	return &t
+}
